@@ -158,6 +158,7 @@ func (w *ssWorld) connect(o ssConnectOpts) bool {
 	var cliRdDone, cliWrDone, srvWrDone bool
 	var accepted *obfsref.SSHandshakeResult
 	var tamperedAt int64 = -1
+	var presentedAt time.Time
 	endReads := 0
 	// one connection in six is quiet for 61-90 s before one of the client's
 	// writes (longer than any handshake timer)
@@ -209,6 +210,7 @@ func (w *ssWorld) connect(o ssConnectOpts) bool {
 		}
 		sess := accepted.Session
 		sawTicket = accepted.Ticket
+		presentedAt = time.Now()
 		sawUDH = accepted.Ticket == nil
 		_ = sawUDH
 		var first []byte
@@ -519,7 +521,9 @@ func (w *ssWorld) connect(o ssConnectOpts) bool {
 	if sawTicket != nil {
 		via = "ticket"
 		c.Feature("ticket-handshake-used")
-		if age := time.Since(issuedAt[sawTicket]); age > 7*24*time.Hour+time.Minute {
+		// (its age when it was presented: the connection itself may have lasted
+		// minutes since)
+		if age := presentedAt.Sub(issuedAt[sawTicket]); age > 7*24*time.Hour+time.Minute {
 			c.Violate("C15/expired-ticket-used", "%v: the client presented a session ticket %v after it was issued (lifetime is 7 days); it must fall back to UniformDH", w.hist, age)
 			return false
 		}
